@@ -15,7 +15,7 @@ M = [
  ("rk23-D21-dense", "src/methods/rk23.rs", "const D21: Float = -4.0 / 3.0;", "const D21: Float = -1.3;", ["C07", "C06", "C19"]),
  ("radau-C2M1-interp", "src/methods/radau.rs", "            yi[i] = c0[i] + s * (c1[i] + (s - C2M1) * (c2[i] + (s - C1M1) * c3[i]));", "            yi[i] = c0[i] + s * (c1[i] + (s - C2M1 * 1.01) * (c2[i] + (s - C1M1) * c3[i]));", ["C07"]),
  ("brent-xtol-1e-3", "src/solve/solout.rs", "const XTOL: Float = 2e-12;", "const XTOL: Float = 1e-3;", ["C08", "C09"]),
- ("find-segment-tol-0", "src/solve/cont.rs", "        let tol = 1e-12;\n        \n        // Strict interpolation", "        let tol = 0.0;\n        \n        // Strict interpolation", ["C06", "C05"]),
+ ("find-segment-tol-0", "src/solve/cont.rs", "        let mut best_dist = 1e-12;", "        let mut best_dist = -1.0;", ["C06", "C05"]),
  ("dop853-posneg-dropped", "src/methods/dop853.rs", "                    hnew = posneg * h_max.abs();", "                    hnew = h_max.abs();", ["C13", "C03", "C11"]),
  ("bdf-error-const-shift", "src/methods/bdf.rs", "            error_const[k] = KAPPA[k] * gamma[k] + 1.0 / (k as Float + 1.0);", "            error_const[k] = (KAPPA[k] * gamma[k] + 1.0 / (k as Float + 1.0)) * 0.001;", ["C01", "C14"]),
  ("hinit-ignores-hmax", "src/methods/mod.rs", "    let h_final = h.abs().min(100.0_f64 * h.abs()).min(h1).min(hmax.abs());", "    let h_final = h.abs().max(100.0_f64 * h.abs()).min(h1);", ["C11", "C03"]),
